@@ -212,7 +212,7 @@ func c01Twin(run *evid.Run, h *hx.History, twin int, table map[string]*stateFn, 
 			if d := obsEqual(before, after); d != "" {
 				run.Violate("C01/noop-changed", det("op", s.Op), wit(where), "%s changed the log: %s", s.Op, d)
 			}
-		case "denyappend", "joinrejected":
+		case "denyappend", "joinrejected", "joinalien":
 			// a refused operation must change nothing (then or later: the state-function table keeps watching)
 			before := hx.Observe(x.Logs[s.R])
 			res := x.Do(i)
@@ -543,6 +543,7 @@ func CheckC03(run *evid.Run) {
 		if i < nh {
 			o2 := opts
 			o2.Failures = i%2 == 1
+			o2.Extra = i%4 == 2 // rebuilds from storage, identity changes
 			h = hx.Gen(run.Seed, i, o2)
 		} else {
 			h = genShapeDAG(run.Seed, i-nh, run.Tier)
